@@ -30,7 +30,7 @@ func init() {
 
 func budget(thorough bool) time.Duration {
 	if thorough {
-		return 25 * time.Minute
+		return 12 * time.Minute
 	}
 	return 100 * time.Second
 }
